@@ -14,7 +14,8 @@
      clear_list/clear_children = ClearPulseChildren          destroy = ~PulseNode
      get_aux        = GetPulseTimeAux        pulse_aux = PulseAux
    The virtual callbacks GetPulseTime()/Pulse() are oracles (Section variables [gt], [pl]):
-   arbitrary functions of (node, number of earlier calls, now, previous/scheduled time) that
+   arbitrary functions of (the whole forest as it is when the callback is entered -- a callback
+   may inspect any node --, node, number of earlier calls, now, previous/scheduled time) that
    return the requested time resp. nothing, plus a list of operations on ANY nodes that the
    callback performs before it returns (invalidate, attach, detach, clear, destroy).
 
@@ -273,8 +274,8 @@ Fixpoint loop_sched (call : state -> nat -> option state) (k : nat) (x : nat) (n
   end.
 
 Section Callbacks.
-  Variable gt : nat -> nat -> N -> N -> N * list cop.    (* GetPulseTime oracle *)
-  Variable pl : nat -> nat -> N -> N -> list cop.        (* Pulse oracle *)
+  Variable gt : nmap -> nat -> nat -> N -> N -> N * list cop.    (* GetPulseTime oracle *)
+  Variable pl : nmap -> nat -> nat -> N -> N -> list cop.        (* Pulse oracle *)
 
   (* the "update myself" part of GetPulseTimeAux *)
   Definition get_self (f : nat) (s : state) (x : nat) (now : N) : option state :=
@@ -283,7 +284,7 @@ Section Callbacks.
       let k := ngt (nd s x) in
       let prev := sched (nd s x) in
       let m1 := upd (nd s) x (set_ngt (set_valid (nd s x) true) (S k)) in
-      let r := gt x k now prev in
+      let r := gt m1 x k now prev in
       match run_cops f m1 (snd r) with
       | None => None
       | Some m2 => Some (mkSt (upd m2 x (set_sched (m2 x) (N.min (fst r) NEVER)))
@@ -327,7 +328,7 @@ Section Callbacks.
       let k := npl (nd s x) in
       let st := sched (nd s x) in
       let m1 := upd (nd s) x (set_npl (nd s x) (S k)) in
-      match run_cops f m1 (pl x k now st) with
+      match run_cops f m1 (pl m1 x k now st) with
       | None => None
       | Some m2 => Some (mkSt (upd m2 x (set_valid (m2 x) false)) (EPulse x k now st :: evs s))
       end
